@@ -57,69 +57,101 @@ def run(ctx):
                     delivered.append(b)
         ctx.floor("SIBLING.deliveries", len(delivered), 2, config)
         dup_err = [b for b, i, adt, var, fl, ops, s_ in aggregates(f) if adt == "de_error::Error" and var == "DuplicateMappingKey"]
-        for k, (sb, arms) in enumerate(sites, 1):
-            live = any(f.dominates(c, sb) for c in captures)
-            kind = "live" if live else "buffered"
-            where = ctx.where(f, sb)
+        # ---- policy x duplicate, formulated over *joint regions* so that the order of the two tests and the form of the policy test
+        # (a three-arm `match`, or `is_duplicate && matches!(policy, P)`) do not matter: for policy P the entries of the region in
+        # which both `policy == P` and `the key is in the seen-set` are known.
+        from ..rules import through_flag
+        names = [v["name"] for v in fx.adt("options::DuplicateKeyPolicy")["variants"]]
+        pedges = []   # (switch block, raw target, effective target, frozenset(policy names))
+        for sb in sorted(f.live_blocks):
+            t = f.blocks[sb]["term"]
+            if t["k"] != "switch":
+                continue
+            sym = f.sym_operand(t["o"])
+            if not (sym[0] == "discr" and render(sym[1]) == "self.cfg.dup_policy"):
+                continue
+            groups = {}
+            for i2, n2 in enumerate(names):
+                tg = t["tgts"][t["vals"].index(i2)] if i2 in t["vals"] else t["tgts"][-1]
+                groups.setdefault(tg, set()).add(n2)
+            for tg, ns in groups.items():
+                eff = through_flag(f, tg, [x for x in groups if x != tg])[0]
+                pedges.append((sb, tg, eff, frozenset(ns)))
+        dedges = []   # (switch block, duplicate target, non-duplicate target)
+        for bb, sym, tt, ff in bool_switches(f):
+            with f.deep():
+                d = f.sym_operand(f.blocks[bb]["term"]["o"])
+            neg = False
+            while d[0] == "un" and d[1] == "Not":
+                d, neg = d[2], not neg
+            if d[0] == "call" and last_seg(d[1]) == "contains" and "self.seen" in render(d):
+                dedges.append((bb, ff, tt) if neg else (bb, tt, ff))
 
-            def dup_edges(start):
-                """edges under `start` that test is_duplicate: returns list of (true_target)"""
-                out = []
-                for bb, sym, tt, ff in bool_switches(f):
-                    with f.deep():
-                        d = f.sym_operand(f.blocks[bb]["term"]["o"])
-                    if f.dominates(start, bb) and d[0] == "call" and last_seg(d[1]) == "contains" and "self.seen" in render(d):
-                        out.append((bb, tt, ff))
-                return out
-            # Error arm
-            de = dup_edges(arms["Error"])
-            okE = bool(de) and all(must_pass(f, [tt], dup_err) for bb, tt, ff in de)
+        def joint(policy):
+            """[(entry block, dup edge, kind)] where policy == `policy` (exclusively) and `duplicate` both hold"""
+            out = []
+            for pb, raw, eff, ns in pedges:
+                if ns != frozenset([policy]):
+                    continue
+                for db, dt, dn in dedges:
+                    if f.edge_dominates(pb, raw, db):
+                        out.append((dt, (db, dt, dn)))
+                    elif f.edge_dominates(db, dt, pb):
+                        out.append((eff, (db, dt, dn)))
+            return out
+        consuming_all = [x for x, xt in f.calls() if fx.callee(xt) in (SKIP, "de::capture_node") or (last_seg(fx.callee_decl(xt)) == "next" and "Events" in fx.callee_decl(xt))]
+        jE, jF, jL = joint("Error"), joint("FirstWins"), joint("LastWins")
+        for kind in ("live", "buffered"):
+            is_kind = (lambda blk: any(f.dominates(c, blk) for c in captures)) if kind == "live" else (lambda blk: not any(f.dominates(c, blk) for c in captures))
+            eE = [(e, de_) for e, de_ in jE if is_kind(e)]
+            eF = [(e, de_) for e, de_ in jF if is_kind(e)]
+            eL = [(e, de_) for e, de_ in jL if is_kind(e)]
+            where = ctx.where(f, (eE or eF or [(0, None)])[0][0])
+            okE = bool(eE) and all(must_pass(f, [e], dup_err) for e, _d in eE)
             ctx.check(okE, "SIBLING", "C04:SIBLING:%s:Error" % kind, "Error ∧ duplicate → duplicate-key error", "policy Error (%s path): a duplicate key does not (always) produce the duplicate-key error" % kind, config, where)
-            for bb, tt, ff in de:
+            for e, (db, dt, dn) in eE:
                 # the non-duplicate edge must not error
-                ctx.check(not (set(dup_err) & f.reachable([ff], avoid=loop_heads + [x for x in dup_err if x not in f.reachable([ff], avoid=[tt])])), "SIBLING", "C04:SIBLING:%s:Error:only-duplicates" % kind, "policy Error: a key that is not in the seen-set does not reach the duplicate-key error before the next entry", "policy Error (%s path): a key that is NOT a duplicate can reach the duplicate-key error" % kind, config, where)
-            # location of the error is the key node's
+                ctx.check(not (set(dup_err) & f.reachable([dn], avoid=loop_heads + [x for x in dup_err if x not in f.reachable([dn], avoid=[dt])])), "SIBLING", "C04:SIBLING:%s:Error:only-duplicates" % kind, "policy Error: a key that is not in the seen-set does not reach the duplicate-key error before the next entry", "policy Error (%s path): a key that is NOT a duplicate can reach the duplicate-key error" % kind, config, where)
+            # location of the error
             for eb, i, adt, var, fl, ops, s_ in aggregates(f):
-                if adt == "de_error::Error" and var == "DuplicateMappingKey" and f.dominates(arms["Error"], eb):
+                if adt == "de_error::Error" and var == "DuplicateMappingKey" and any(f.dominates(e, eb) for e, _d in eE):
                     with f.deep():
                         loc = f.sym_operand(s_["rv"]["ops"][fl.index("location")])
-                    if live:
+                    if kind == "live":
                         # the repeated key as written in this mapping: the source's use-site location taken while the key is still
                         # the peeked node (for `*k: v` that is the alias token; the captured node carries the anchor's position)
                         rbs = []
                         sym_contains(loc, lambda x: x[0] == "call" and last_seg(x[1]) == "reference_location" and rbs.append(x[3]) is None and False)
                         caps = [c for c in captures if f.dominates(c, eb)]
-                        consuming = [x for x, xt in f.calls() if fx.callee(xt) in (SKIP, "de::capture_node") or (last_seg(fx.callee_decl(xt)) == "next" and "Events" in fx.callee_decl(xt))]
-                        okl = bool(rbs) and bool(caps) and all(any(f.dominates(rb, c) and not any(x != c and x != rb and f.dominates(rb, x) and f.dominates(x, c) for x in consuming) for c in caps) for rb in rbs)
+                        okl = bool(rbs) and bool(caps) and all(any(f.dominates(rb, c) and not any(x != c and x != rb and f.dominates(rb, x) and f.dominates(x, c) for x in consuming_all) for c in caps) for rb in rbs)
                         ctx.check(okl, "SIBLING", "C04:SIBLING:%s:Error:location" % kind, "the error is located where the repeated key is written (use-site location read before the key is captured)",
                                   "the duplicate-key error's location is `%s`, not the use-site of the key read while it is the peeked node: for an aliased key `*k: v` the error points at the anchor's definition" % render(loc)[:120], config, ctx.where(f, eb))
                     else:
                         okl = sym_contains(loc, lambda x: x[0] == "call" and x[1] == "de::KeyNode::location")
                         ctx.check(okl, "SIBLING", "C04:SIBLING:%s:Error:location" % kind, "the error is located at the repeated key node", "the duplicate-key error's location is `%s`, not the key node's location" % render(loc), config, ctx.where(f, eb))
-            # FirstWins arm
-            df = dup_edges(arms["FirstWins"])
-            okF = bool(df)
-            for bb, tt, ff in df:
-                # nothing delivered before the loop restarts
-                reach = f.reachable([tt], avoid=loop_heads)
+            okF = bool(eF)
+            for e, _d in eF:
+                reach = f.reachable([e], avoid=loop_heads)
                 if set(delivered) & reach:
                     okF = False
-                if live:
-                    if not must_pass(f, [tt], skips, to_blocks=set(loop_heads) | set(f.return_blocks())):
+                if kind == "live":
+                    if not must_pass(f, [e], skips, to_blocks=set(loop_heads) | set(f.return_blocks())):
                         okF = False
-                else:
-                    # buffered: the value is already captured — nothing may be consumed from the live source
-                    consuming = [x for x, t in f.calls() if fx.callee(t) in (SKIP, "de::capture_node") or (last_seg(fx.callee_decl(t)) == "next" and "Events" in fx.callee_decl(t))]
-                    if set(consuming) & reach:
-                        okF = False
+                elif set(consuming_all) & reach:
+                    okF = False
             ctx.check(okF, "SIBLING", "C04:SIBLING:%s:FirstWins" % kind,
-                      "FirstWins ∧ duplicate → nothing delivered%s" % (", exactly one node skipped" if live else ", nothing consumed"),
+                      "FirstWins ∧ duplicate → nothing delivered%s" % (", exactly one node skipped" if kind == "live" else ", nothing consumed"),
                       "policy FirstWins (%s path): a later duplicate entry is delivered, or its value is not skipped / something else is consumed" % kind, config, where)
-            # LastWins arm: falls through to the delivery without a duplicate test
-            dl = dup_edges(arms["LastWins"])
-            own = [x for x in dl if f.dominates(arms["LastWins"], x[0]) and not f.dominates(arms["Error"], x[0]) and not f.dominates(arms["FirstWins"], x[0])]
-            ctx.check(not [x for x in own if arms["LastWins"] not in (arms["Error"], arms["FirstWins"])], "SIBLING", "C04:SIBLING:%s:LastWins" % kind, "LastWins delivers every entry (no duplicate test on its arm)", "policy LastWins (%s path) now tests for duplicates" % kind, config, where)
-            ctx.check(len({arms["Error"], arms["FirstWins"], arms["LastWins"]}) == 3, "SIBLING", "C04:SIBLING:%s:distinct-arms" % kind, "three distinct policy arms", "two policies share one arm", config, where)
+            ctx.check(not eL, "SIBLING", "C04:SIBLING:%s:LastWins" % kind, "LastWins delivers every entry (no duplicate test that is specific to it)", "policy LastWins (%s path) now tests for duplicates" % kind, config, where)
+            # on the live path the duplicate test applies to ordinary keys only: a `<<` entry is never in the seen-set as a key, but a
+            # *quoted* "<<" key has the same fingerprint (style is not part of it), so a test made before the merge-key test takes
+            # a later merge entry for a repeat
+            if kind == "live":
+                mk_edges = [(sb2, f2) for sb2, sym2, t2, f2 in bool_switches(f) if sym2[0] == "call" and sym2[1] == "de::is_merge_key"]
+                live_d = [(db, dt, dn) for db, dt, dn in dedges if any(f.dominates(c, db) for c in captures)]
+                okm = bool(mk_edges) and bool(live_d) and all(any(f.edge_dominates(sb2, f2, db) for sb2, f2 in mk_edges) for db, dt, dn in live_d)
+                ctx.check(okm, "SIBLING", "C04:SIBLING:live:duplicate-test-after-merge-key-test", "on the live path the seen-set is consulted only for keys that are not merge keys",
+                          "next_key_seed consults the seen-set before it knows that the key is not a `<<` merge key: with a literal quoted \"<<\" key earlier in the mapping a later merge entry is taken for a repeat (dropped under FirstWins)", config, where)
         # a duplicate is dropped silently only while flushing merges or under FirstWins: every edge "already seen" that can get back
         # to the next entry without an error and without delivering is controlled by one of those two tests
         flush_edges = []
@@ -143,11 +175,20 @@ def run(ctx):
             if not (d[0] == "call" and last_seg(d[1]) == "contains" and "self.seen" in render(d)):
                 continue
             dupe = ff if neg else tt
-            reach = f.reachable([dupe], avoid=list(delivered) + list(dup_err))
+            # re-queuing the entry for the buffered path (explicit-empty-key probing) is not a drop: it is delivered from the queue
+            def _pushes_pending(g):
+                return any(last_seg(fx.callee(xt)) in ("push_back", "push_front", "extend", "append") and xt["args"] and render(g.sym_operand(xt["args"][0])).endswith("self.pending") for x, xt in g.calls())
+            requeue = [x for x, xt in f.calls() if (last_seg(fx.callee(xt)) in ("push_back", "push_front", "extend", "append") and xt["args"] and render(f.sym_operand(xt["args"][0])).endswith("self.pending"))
+                       or (fx.local_callee(xt) is not None and "::MA::" in fx.callee(xt) and _pushes_pending(fx.local_callee(xt)))]
+            reach = f.reachable([dupe], avoid=list(delivered) + list(dup_err) + requeue)
             if not (set(loop_heads) & reach):
                 continue  # this duplicate edge never drops silently
             nd += 1
-            ctl = any(f.edge_dominates(fb, ft, bb) for fb, ft in flush_edges) or any(f.dominates(arms["FirstWins"], bb) and arms["FirstWins"] not in (arms["Error"], arms["LastWins"]) for sb, arms in sites)
+            ctl = any(f.edge_dominates(fb, ft, bb) for fb, ft in flush_edges) or any(f.edge_dominates(pb, raw, bb) for pb, raw, eff, ns in pedges if ns == frozenset(["FirstWins"]))
+            if not ctl:
+                # the FirstWins test may come after the duplicate test: then every silent way back to the next entry passes it
+                fw = [eff for pb, raw, eff, ns in pedges if ns == frozenset(["FirstWins"]) and f.edge_dominates(bb, dupe, pb)]
+                ctl = bool(fw) and not (set(loop_heads) & f.reachable([dupe], avoid=list(delivered) + list(dup_err) + requeue + fw))
             ctx.check(ctl, "SIBLING", "C04:SIBLING:silent-drop-only-flushing-or-FirstWins#%d" % nd,
                       "an already-seen key is dropped silently only while flushing merges or under FirstWins",
                       "next_key_seed drops an already-seen key silently on a path controlled neither by `flushing_merges` nor by the FirstWins arm: under LastWins the later entry is lost, under Error nothing is reported", config, ctx.where(f, bb))
